@@ -62,6 +62,9 @@ LEVELS = {"C17": "fault_enumeration"}
 CHECKS["C06"] = ("type monitor on reflect.interpret (one-step typing check of every constructed term against independent rules; Tensor data shape/dtype/range invariant) + lazy-vs-eager declaration differential + find_domain catalogue vs numpy with exhaustive bounded-integer images",
             "Every term built while all engines run is checked against the typing rule applied to its children's declared types, every Tensor against its declaration; generated programs are built lazily and eagerly and their declarations compared; every op of the catalogue is applied to arrays of every operand domain/parameter combination in range and compared with the statically declared domain. Exploration.",
             "trusted: fv/ir.py typing rules, numpy; ops are exercised on their carriers only (real-valued ops on reals, and/or/xor/invert on booleans)", "DESIGN.md §6 C06")
+CHECKS["C16"] = ("dispatch observation hook on PartialDispatcher.partial_call + offline recomputation of the matching set and specificity order with an independent matcher; cache-clearing and shuffled-registration determinism probes; order axioms and membership oracle on a type pool",
+            "Every (dispatcher, argument types) pair used while the engines run is re-examined: the chosen rule's pattern must be at least as specific as every matching pattern, and the same rule must be chosen with an empty cache and by dispatchers rebuilt in shuffled registration orders; reflexivity, transitivity and soundness of the subtype relation and agreement of deep_isinstance with a textbook membership predicate are checked on a pool of parametric types and sampled values. Exploration.",
+            "trusted: plain-class issubclass/isinstance; the independent matcher in fv/checks/c16.py builds on deep_issubclass, whose axioms are checked separately", "DESIGN.md §6 C16")
 CHECKS["C20"] = ("mutation monitor: write-protected leaf arrays (write attempts raise at the write site) + content snapshots of every array, every funsor passed to any rule and every result, re-verified after each program and at the end of the run",
             "All engines are run with every user-supplied array read-only and hashed; the dispatch monitor snapshots each funsor the first time it is handed to a rule; after each program and at the end of the shard every snapshot must still match. Exploration.",
             "trusted: numpy write protection, sha1 content hashes; memoised attributes are not considered part of a term's value", "DESIGN.md §6 C20")
